@@ -94,6 +94,19 @@ def _handler(case):
             if park.curr_p_charge < 0:
                 discharged = True
             sig.add(("u", first, len(park.available_cars) > 0, p < 0, park.curr_p_charge < 0, park.curr_p_charge > 0))
+        elif st["op"] == "reset":
+            # between Monte Carlo iterations: reset_status with saving on or off
+            ops.append("ev reset")
+            park.reset_status(st["save"])
+            stats = [park.park_interruption_fraction, park.curr_exp_interruptions, park.acc_exp_interruptions,
+                     park.curr_exp_car_interruptions, park.acc_exp_car_interruptions,
+                     park.curr_interruption_duration.get_hours(), park.acc_interruption_duration.get_hours()]
+            impl.append(f"{flist([car.E_battery for car in park.available_cars])} {park.available_num_cars} {park.acc_available_num_cars} "
+                        f"{fr(park.curr_p_demand)} {fr(park.curr_p_charge)} {fr(park.curr_q_charge)} | "
+                        f"{park.num_consecutive_interruptions} {fr(stats[0])} {fr(stats[1])} {park.acc_num_interruptions} {fr(stats[2])} "
+                        f"{fr(stats[3])} {fr(stats[4])} {fr(stats[5])} {fr(stats[6])}")
+            discharged = False          # a new iteration: statistics stay zero until a car of this iteration is discharged
+            sig.add(("r", st["save"]))
         else:
             dt = F(st["dt"])
             ops.append(f"ev log {fr(dt)}")
@@ -149,6 +162,17 @@ def gen(rng, n):
                           "us": [str(rng.choice([F(0), F(1), rand_frac(rng, 0, 1)])) for _ in range(10)]})
             if rng.random() < 0.85:
                 steps.append({"op": "log", "dt": str(h)})
+        if len(cases) % 3 == 0:
+            # a second iteration on the same object: the first ends while cars are being discharged (interruption still open),
+            # reset_status (saving on / off), then requests that discharge nothing followed by logs
+            steps.append({"op": "upd", "p": "2", "q": "0", "h": "1", "first": True, "hour": max(range(24), key=lambda i: table[i]),
+                          "us": [str(F(1))] * 10})
+            steps.append({"op": "log", "dt": "1"})
+            steps.append({"op": "reset", "save": len(cases) % 2 == 0})
+            for _ in range(rng.randint(1, 3)):
+                steps.append({"op": "upd", "p": str(-rng.choice([F(1, 20), F(1, 2)])), "q": "0", "h": "1", "first": rng.random() < 0.5, "hour": rng.randrange(24),
+                              "us": [str(rng.choice([F(0), F(1, 2)])) for _ in range(10)]})
+                steps.append({"op": "log", "dt": "1"})
         cases.append({"cfg": cfg, "steps": steps})
     return cases
 
